@@ -10,6 +10,8 @@
 import Sq.Proto
 import SqLemmas.ParseLayout
 import SqLemmas.LexBlank
+import SqLemmas.ParseErase
+import Sq.Proto
 namespace SqProps.C15
 open Sq
 
